@@ -614,12 +614,22 @@ var histLays = map[string]histLay{
 	"L2": {nil, nil},
 	"L3": {[]float64{-1e300, math.Copysign(0, -1), 1e300}, []uint64{math.MaxUint64, 0, 1, 2}},
 	"L4": func() histLay { b, c := manyBounds(200); return histLay{b, c} }(),
+	// OtlpModel!ZeroShape: zeros at the end / at the start / everywhere / no counts at all
+	"L5": {[]float64{0, 5, 10}, []uint64{1, 0, 2, 0}},
+	"L6": {[]float64{0, 5, 10}, []uint64{0, 0, 3, 4}},
+	"L7": {[]float64{0, 5, 10}, []uint64{0, 0, 0, 0}},
+	"L8": {[]float64{0, 5, 10}, []uint64{}},
 }
 var expLays = map[string]expLay{
 	"L1": {scale: 3, zc: 2, poff: 1, pos: []uint64{1, 2}, noff: -3, neg: []uint64{4}},
 	"L2": {},
 	"L3": {scale: 20, zc: math.MaxUint64, poff: math.MaxInt32, pos: []uint64{math.MaxUint64}, noff: math.MinInt32, neg: []uint64{0, 0, 1}},
 	"L4": {scale: -10, zc: 1, poff: -5, pos: []uint64{1}, zth: 0.25},
+	// OtlpModel!ZeroShape: zeros at the end / at the start / everywhere (non-zero offset) / empty (non-zero offset)
+	"L5": {scale: 2, zc: 1, poff: 2, pos: []uint64{1, 0, 2, 0, 0}, noff: -1, neg: []uint64{5, 0}},
+	"L6": {scale: 2, zc: 0, poff: 3, pos: []uint64{0, 0, 3}, noff: 1, neg: []uint64{0, 7}},
+	"L7": {scale: 1, zc: 4, poff: 4, pos: []uint64{0, 0, 0}, noff: -2, neg: []uint64{0}},
+	"L8": {scale: 1, zc: 3, poff: 7, pos: []uint64{}, noff: -7, neg: nil},
 }
 
 func renderHistLay(bounds []float64, counts []uint64) string {
